@@ -1,8 +1,8 @@
 (* C11 -- Binary-to-text and wire codecs are exact inverses on their whole domain.
    Statements only; every proof is [exact <lemma>] with Print Assumptions beneath. *)
-From Coq Require Import NArith List.
-From BU Require Import Base.Exn Base.Bytes Gen.Consts Model.Base58.
-From BU Require Lemmas.Base58 Lemmas.ConstsOk.
+From Coq Require Import NArith ZArith Arith List.
+From BU Require Import Base.Exn Base.Bytes Gen.Consts Gen.CodecConsts Model.Base58 Model.Base58Xmr Model.Codecs Model.IntBytes Model.Scale Model.Cbor.
+From BU Require Lemmas.Base58 Lemmas.ConstsOk Lemmas.XmrConstsOk Lemmas.IntBytes Lemmas.ConvertBitsOk Lemmas.Base32 Lemmas.Base32Ok Lemmas.SS58Ok Lemmas.ScaleOk Lemmas.CborOk.
 Import ListNotations.
 Open Scope N_scope.
 
@@ -52,3 +52,411 @@ Proof.
   - exact (Lemmas.Base58.check_decode_encode _ _ _ sha ConstsOk.b58_alph_xrp_nodup ConstsOk.b58_alph_xrp_len ConstsOk.b58_radix_ge2 H1 H2 ConstsOk.b58_cklen_le b Hb).
 Qed.
 Print Assumptions b58check_roundtrip.
+
+(* ------------------------------------------------------------------ Monero block Base58 *)
+
+(* BLOCK_ENC_BYTE_LENS[d] is the least e with 58^e >= 256^d, for every row d = 0..8 *)
+Theorem xmr_table_ok : forall d e, nth_error xmr_block_enc_lens d = Some e ->
+  (d <= xmr_block_dec_max)%nat /\
+  256 ^ N.of_nat d <= b58_radix ^ N.of_nat e /\
+  (forall e', (e' < e)%nat -> b58_radix ^ N.of_nat e' < 256 ^ N.of_nat d).
+Proof. exact XmrConstsOk.xmr_table_ok. Qed.
+Print Assumptions xmr_table_ok.
+
+Example xmr_table_rows : exists e, nth_error xmr_block_enc_lens xmr_block_dec_max = Some e.
+Proof. exact XmrConstsOk.xmr_table_rows. Qed.
+Print Assumptions xmr_table_rows.
+
+(* [Codecs.xmr_decode] includes the block-value check of __UnPad (a block whose Base58 value does not fit
+   its byte width is a ValueError; repair of defect F2). *)
+Theorem xmr_decode_encode : forall b, bytes_ok b ->
+  exists s, Codecs.xmr_encode b = Ok s /\ Codecs.xmr_decode s = Ok b.
+Proof. exact XmrConstsOk.xmr_decode_encode. Qed.
+Print Assumptions xmr_decode_encode.
+
+(* canonicity: every accepted string is the standard encoding of what it decodes to ... *)
+Theorem xmr_encode_decode : forall s b, Codecs.xmr_decode s = Ok b -> Codecs.xmr_encode b = Ok s /\ bytes_ok b.
+Proof. exact XmrConstsOk.xmr_encode_decode. Qed.
+Print Assumptions xmr_encode_decode.
+
+(* ... hence the decoder accepts exactly the image of the encoder, and fails only with ValueError *)
+Theorem xmr_decode_accepts_iff : forall s,
+  (exists b, Codecs.xmr_decode s = Ok b) <-> (exists b, bytes_ok b /\ Codecs.xmr_encode b = Ok s).
+Proof. exact XmrConstsOk.xmr_decode_accepts_iff. Qed.
+Print Assumptions xmr_decode_accepts_iff.
+
+Theorem xmr_decode_err : forall s e, Codecs.xmr_decode s = Err e -> e = ValueError.
+Proof. exact XmrConstsOk.xmr_decode_err. Qed.
+Print Assumptions xmr_decode_err.
+
+Theorem xmr_encode_inj : forall b1 b2 s, bytes_ok b1 -> bytes_ok b2 ->
+  Codecs.xmr_encode b1 = Ok s -> Codecs.xmr_encode b2 = Ok s -> b1 = b2.
+Proof. exact XmrConstsOk.xmr_encode_inj. Qed.
+Print Assumptions xmr_encode_inj.
+
+(* block lemma, for EVERY block-width string (not only encoder output): the Base58 decoding has at
+   least d bytes, i.e. the start of __UnPad's slice is never negative *)
+Theorem xmr_block_dec_length : forall s d e dec, nth_error xmr_block_enc_lens d = Some e -> length s = e ->
+  Codecs.xmr_b58dec s = Ok dec -> (d <= length dec)%nat.
+Proof. exact XmrConstsOk.xmr_block_dec_length. Qed.
+Print Assumptions xmr_block_dec_length.
+
+(* overflowing blocks (the former defect F2) are rejected *)
+Theorem xmr_overflow_rejected :
+  Codecs.xmr_decode [122; 122] = Err ValueError /\ Codecs.xmr_decode (repeat 122 11) = Err ValueError.
+Proof. exact XmrConstsOk.xmr_overflow_rejected. Qed.
+Print Assumptions xmr_overflow_rejected.
+
+(* block by block: an accepted block string re-encodes to itself iff its value fits the bytes kept *)
+Theorem xmr_block_canonical_iff : forall s d e dec v,
+  nth_error xmr_block_enc_lens d = Some e -> length s = e ->
+  Codecs.xmr_b58dec s = Ok dec -> Codecs.xmr_block_value s = Ok v ->
+  (Codecs.xmr_pad e (Codecs.xmr_b58enc (Base58Xmr.unpad d dec)) = s <-> v < 256 ^ N.of_nat d).
+Proof. exact XmrConstsOk.xmr_block_canonical_iff. Qed.
+Print Assumptions xmr_block_canonical_iff.
+
+(* ------------------------------------------------------------------ IntegerUtils / BytesUtils *)
+
+(* GetBytesNumber n is the least w >= 1 with n < 256^w *)
+Theorem bytes_number_spec : forall n, let w := IntBytes.bytes_number (Z.of_N n) in
+  1 <= w /\ n < 256 ^ w /\ (1 < w -> 256 ^ (w - 1) <= n).
+Proof. exact Lemmas.IntBytes.bytes_number_spec. Qed.
+Print Assumptions bytes_number_spec.
+
+(* int_bytes_roundtrip, in its four parts.  ToBytes with automatic (minimal) width, both endiannesses: *)
+Theorem int_bytes_roundtrip_auto : forall n big,
+  exists b, IntBytes.to_bytes (Z.of_N n) 0 big = Ok b /\ IntBytes.to_integer b big = n /\
+            length b = N.to_nat (IntBytes.bytes_number (Z.of_N n)) /\ bytes_ok b.
+Proof. exact Lemmas.IntBytes.to_bytes_auto. Qed.
+Print Assumptions int_bytes_roundtrip_auto.
+
+(* fixed width w >= 1: exactly the values below 256^w are encoded (w bytes, value preserved) ... *)
+Theorem int_bytes_roundtrip_fixed : forall n w big, w <> 0 -> n < 256 ^ w ->
+  exists b, IntBytes.to_bytes (Z.of_N n) w big = Ok b /\ IntBytes.to_integer b big = n /\
+            length b = N.to_nat w /\ bytes_ok b.
+Proof. exact Lemmas.IntBytes.to_bytes_fixed. Qed.
+Print Assumptions int_bytes_roundtrip_fixed.
+
+Example int_bytes_roundtrip_fixed_ex : exists b, IntBytes.to_bytes 65535%Z 2 false = Ok b.
+Proof. destruct (Lemmas.IntBytes.to_bytes_fixed 65535 2 false) as (b & H & _); [discriminate|reflexivity|]. exists b; exact H. Qed.
+Print Assumptions int_bytes_roundtrip_fixed_ex.
+
+(* ... and everything else is an OverflowError (the guard of int.to_bytes) *)
+Theorem int_bytes_overflow : forall n w big, w <> 0 -> 256 ^ w <= n ->
+  IntBytes.to_bytes (Z.of_N n) w big = Err OverflowError.
+Proof. exact Lemmas.IntBytes.to_bytes_overflow. Qed.
+Print Assumptions int_bytes_overflow.
+
+Theorem int_bytes_negative : forall v w big, (v < 0)%Z -> IntBytes.to_bytes v w big = Err OverflowError.
+Proof. exact Lemmas.IntBytes.to_bytes_negative. Qed.
+Print Assumptions int_bytes_negative.
+
+(* bytes -> integer -> bytes at the same width; the empty string is excluded because width 0 means
+   "automatic" in ToBytes: ToBytes(ToInteger(b""), 0) = b"\x00" *)
+Theorem bytes_int_roundtrip : forall b big, bytes_ok b -> b <> [] ->
+  IntBytes.to_bytes (Z.of_N (IntBytes.to_integer b big)) (N.of_nat (length b)) big = Ok b.
+Proof. exact Lemmas.IntBytes.to_bytes_to_integer. Qed.
+Print Assumptions bytes_int_roundtrip.
+
+Example bytes_int_roundtrip_empty_refuted :
+  IntBytes.to_bytes (Z.of_N (IntBytes.to_integer [] true)) 0 true = Ok [0].
+Proof. exact Lemmas.IntBytes.to_bytes_empty_refuted. Qed.
+Print Assumptions bytes_int_roundtrip_empty_refuted.
+
+(* the three round trips together, under the name used in DESIGN.md *)
+Theorem int_bytes_roundtrip : forall n w big b,
+  (exists x, IntBytes.to_bytes (Z.of_N n) 0 big = Ok x /\ IntBytes.to_integer x big = n) /\
+  (w <> 0 -> n < 256 ^ w -> exists x, IntBytes.to_bytes (Z.of_N n) w big = Ok x /\ IntBytes.to_integer x big = n /\
+                                     length x = N.to_nat w) /\
+  (bytes_ok b -> b <> [] ->
+   IntBytes.to_bytes (Z.of_N (IntBytes.to_integer b big)) (N.of_nat (length b)) big = Ok b).
+Proof.
+  intros n w big b. split; [|split].
+  - destruct (Lemmas.IntBytes.to_bytes_auto n big) as (x & A & B & _). exists x; auto.
+  - intros Hw Hn. destruct (Lemmas.IntBytes.to_bytes_fixed n w big Hw Hn) as (x & A & B & C & _). exists x; auto.
+  - exact (Lemmas.IntBytes.to_bytes_to_integer b big).
+Qed.
+Print Assumptions int_bytes_roundtrip.
+
+(* binary strings: int(bin(n)[2:].zfill(pad), 2) = n with CPython's full int() grammar in the model *)
+Theorem binstr_roundtrip : forall n pad,
+  IntBytes.int_from_binstr (IntBytes.int_to_binstr n pad) = Ok (Z.of_N n).
+Proof. exact Lemmas.IntBytes.int_binstr_roundtrip. Qed.
+Print Assumptions binstr_roundtrip.
+
+(* BytesUtils.FromBinaryStr(BytesUtils.ToBinaryStr(b, p), 2*len(b)) = b (second argument: hex digits) *)
+Theorem bytes_binstr_roundtrip : forall b p, bytes_ok b -> b <> [] ->
+  IntBytes.bytes_from_binstr (IntBytes.bytes_to_binstr b p) (2 * length b) = Ok b.
+Proof. exact Lemmas.IntBytes.bytes_binstr_roundtrip. Qed.
+Print Assumptions bytes_binstr_roundtrip.
+
+(* FromBinaryStr is far from canonical (it is Python's int(text, 2)): white space, sign, 0b prefix, underscores *)
+Example binstr_noncanonical : IntBytes.int_from_binstr [32; 43; 48; 98; 95; 49; 95; 48; 10] = Ok 2%Z /\
+                              IntBytes.int_to_binstr 2 0 = [49; 48].
+Proof. split; vm_compute; reflexivity. Qed.
+Print Assumptions binstr_noncanonical.
+
+Theorem binstr_errors : forall s pad e,
+  (IntBytes.int_from_binstr s = Err e -> e = ValueError) /\
+  (IntBytes.bytes_from_binstr s pad = Err e -> e = ValueError).
+Proof. intros s pad e. split; [exact (Lemmas.IntBytes.int_from_binstr_err s e)|exact (Lemmas.IntBytes.bytes_from_binstr_err s pad e)]. Qed.
+Print Assumptions binstr_errors.
+
+(* hex *)
+Theorem hex_roundtrip : forall b, bytes_ok b ->
+  IntBytes.from_hex_string (IntBytes.to_hex_string b) = Ok b.
+Proof. exact Lemmas.IntBytes.unhexlify_hexlify. Qed.
+Print Assumptions hex_roundtrip.
+
+(* canonicity up to letter case, and exact acceptance / error class of FromHexString *)
+Theorem hex_decode_canonical : forall s b, IntBytes.from_hex_string s = Ok b ->
+  bytes_ok b /\ IntBytes.to_hex_string b = map Lemmas.IntBytes.hex_lower s /\ length s = (2 * length b)%nat.
+Proof. exact Lemmas.IntBytes.unhexlify_ok_spec. Qed.
+Print Assumptions hex_decode_canonical.
+
+Theorem hex_decode_total : forall s,
+  ((exists b, IntBytes.from_hex_string s = Ok b) <->
+   (Nat.even (length s) = true /\ forallb Lemmas.IntBytes.is_hex s = true)) /\
+  (forall e, IntBytes.from_hex_string s = Err e -> e = ValueError).
+Proof. intros s. split; [exact (Lemmas.IntBytes.unhexlify_ok_iff s)|exact (Lemmas.IntBytes.unhexlify_err s)]. Qed.
+Print Assumptions hex_decode_total.
+
+(* ------------------------------------------------------------------ Bech32 8 <-> 5 bit regrouping *)
+
+(* ConvertFromBase32 (ConvertToBase32 b) = b for every byte string; the 5-bit form has only 5-bit symbols *)
+Theorem convertbits_8_5_8 : forall b, bytes_ok b ->
+  exists l, Codecs.to_base32 b = Ok l /\ Forall (fun d => d < 32) l /\ Codecs.from_base32 l = Ok b.
+Proof. exact ConvertBitsOk.convertbits_8_5_8. Qed.
+Print Assumptions convertbits_8_5_8.
+
+(* canonicity: the strict direction accepts only the padded regrouping of its result *)
+Theorem convertbits_5_8_5 : forall l b, Codecs.from_base32 l = Ok b ->
+  bytes_ok b /\ Forall (fun d => d < 32) l /\ Codecs.to_base32 b = Ok l.
+Proof. exact ConvertBitsOk.from_base32_canonical. Qed.
+Print Assumptions convertbits_5_8_5.
+
+(* strict mode rejects exactly over-long (>= 5 bits) or non-zero padding (and symbols >= 32), with ValueError *)
+Theorem convertbits_strict_accepts_iff : forall l, Forall (fun d => d < 32) l ->
+  ((exists b, Codecs.from_base32 l = Ok b) <->
+   (5 * N.of_nat (length l)) mod 8 < 5 /\
+   Radix.from_be 32 l mod 2 ^ ((5 * N.of_nat (length l)) mod 8) = 0).
+Proof. exact ConvertBitsOk.from_base32_accepts_iff. Qed.
+Print Assumptions convertbits_strict_accepts_iff.
+
+Example convertbits_strict_accepts_ex : exists b, Codecs.from_base32 [31; 28] = Ok b.
+Proof. exists [255]. vm_compute. reflexivity. Qed.
+Print Assumptions convertbits_strict_accepts_ex.
+
+Theorem convertbits_errors : forall l,
+  (forall e, Codecs.from_base32 l = Err e -> e = ValueError) /\
+  (~ Forall (fun d => d < 32) l -> Codecs.from_base32 l = Err ValueError) /\
+  (~ bytes_ok l -> Codecs.to_base32 l = Err ValueError).
+Proof.
+  intros l. split; [exact (ConvertBitsOk.from_base32_err l)|].
+  split; [exact (ConvertBitsOk.from_base32_range l)|exact (ConvertBitsOk.to_base32_range l)].
+Qed.
+Print Assumptions convertbits_errors.
+
+(* ------------------------------------------------------------------ Base32 (RFC 4648 via base64) *)
+
+(* a custom alphabet is admissible when it is a bijective relabelling: 32 distinct characters, no '=' *)
+Definition b32_custom_ok (custom : option (list N)) : Prop :=
+  match custom with
+  | None => True
+  | Some c => NoDup c /\ length c = 32%nat /\ ~ In Base32.rfc_pad c
+  end.
+
+Theorem b32_roundtrip : forall b custom, bytes_ok b -> b32_custom_ok custom ->
+  exists s, Codecs.b32_encode b custom = Ok s /\ Codecs.b32_decode s custom = Ok b.
+Proof. exact Base32Ok.b32_roundtrip. Qed.
+Print Assumptions b32_roundtrip.
+
+(* pad strip / restore, for every length (mod 5): EncodeNoPadding output has no '=' and decodes to b *)
+Theorem b32_roundtrip_no_padding : forall b custom, bytes_ok b -> b32_custom_ok custom ->
+  exists s, Codecs.b32_encode_no_padding b custom = Ok s /\ Codecs.b32_decode s custom = Ok b /\
+            ~ In Base32.rfc_pad s.
+Proof. exact Base32Ok.b32_roundtrip_no_padding. Qed.
+Print Assumptions b32_roundtrip_no_padding.
+
+Example b32_custom_ok_ex : b32_custom_ok (Some (map (fun c => c + 32) (firstn 26 Base32.rfc_alphabet) ++ skipn 26 Base32.rfc_alphabet)).
+Proof.
+  split; [apply Base.Bytes.nodupb_sound; vm_compute; reflexivity|].
+  split; [reflexivity|]. intro H. apply Base.Bytes.memb_In in H. vm_compute in H. discriminate.
+Qed.
+Print Assumptions b32_custom_ok_ex.
+
+(* the text is the standard one: its data symbols are the 8->5 regrouping of b (the unique digit string ds
+   with 5|ds| = 8|b| + p, p < 5, value(ds) = value(b) * 2^p) through the alphabet, then '=' to a multiple of 8 *)
+Theorem b32_encode_standard : forall b custom s, bytes_ok b -> b32_custom_ok custom ->
+  Codecs.b32_encode b custom = Ok s ->
+  (length s mod 8)%nat = 0%nat /\
+  exists ds, Lemmas.Base32.digits5 b ds /\
+    s = map (Base32.sym32 (Lemmas.Base32.eff custom)) ds ++
+        repeat Base32.rfc_pad (Lemmas.Base32.padcount (length ds)).
+Proof. exact Base32Ok.b32_encode_standard. Qed.
+Print Assumptions b32_encode_standard.
+
+(* with a custom alphabet the decoder accepts no character outside that alphabet and '=' *)
+Theorem b32_decode_custom_foreign : forall s c ch, In ch s -> ~ In ch c -> ch <> Base32.rfc_pad ->
+  Codecs.b32_decode s (Some c) = Err ValueError.
+Proof. exact Base32Ok.b32_decode_custom_foreign. Qed.
+Print Assumptions b32_decode_custom_foreign.
+
+Theorem b32_decode_err : forall s custom e, Codecs.b32_decode s custom = Err e -> e = ValueError.
+Proof. exact Base32Ok.b32_decode_err. Qed.
+Print Assumptions b32_decode_err.
+
+(* decode-then-encode does NOT hold for Base32 (b32decode does not check the left-over bits): "AB" and "AA"
+   both decode to 0x00.  Material for C10; C11 (decode . encode = id, standard text) is unaffected. *)
+Theorem b32_canonical_refuted :
+  Codecs.b32_decode [65; 66] None = Ok [0] /\ Codecs.b32_encode_no_padding [0] None = Ok [65; 65].
+Proof. exact Base32Ok.b32_canonical_refuted. Qed.
+Print Assumptions b32_canonical_refuted.
+
+(* ------------------------------------------------------------------ SS58 *)
+(* blake2b-512 is an oracle; the theorems assume only that its output has 64 bytes.
+   The 14-bit format packing is decided by exhaustive kernel computation: all 16384 formats forwards,
+   all 256 + 65536 one-/two-byte prefixes backwards (Lemmas/SS58Ok.v), lifted with forallb_forall. *)
+
+Theorem ss58_bounds : ss58_format_max = 16383 /\ ss58_simple_max = 63 /\ ss58_reserved = [46; 47] /\
+                      ss58_data_len = 32%nat /\ ss58_cklen = 2%nat.
+Proof. exact SS58Ok.ss58_bounds. Qed.
+Print Assumptions ss58_bounds.
+
+(* all formats 0..16383 except the reserved 46/47, all 32-byte payloads *)
+Theorem ss58_roundtrip : forall (blake2b512 : list N -> list N) data fmt,
+  (forall x, length (blake2b512 x) = 64%nat) -> (forall x, bytes_ok (blake2b512 x)) ->
+  bytes_ok data -> length data = ss58_data_len ->
+  (0 <= fmt <= Z.of_N ss58_format_max)%Z -> ~ In (Z.to_N fmt) ss58_reserved ->
+  exists s, Codecs.ss58_encode blake2b512 data fmt = Ok s /\
+            Codecs.ss58_decode blake2b512 s = Ok (Z.to_N fmt, data).
+Proof. intros blake data fmt H1 H2. apply SS58Ok.ss58_roundtrip; assumption. Qed.
+Print Assumptions ss58_roundtrip.
+
+Example ss58_roundtrip_ex : (0 <= 1284 <= Z.of_N ss58_format_max)%Z /\ ~ In (Z.to_N 1284) ss58_reserved.
+Proof. split; [vm_compute; split; discriminate|]. intro H. apply Base.Bytes.memb_In in H. vm_compute in H. discriminate. Qed.
+Print Assumptions ss58_roundtrip_ex.
+
+(* canonicity and exact acceptance: the decoder accepts precisely the encoder's image *)
+Theorem ss58_encode_decode : forall (blake2b512 : list N -> list N) s f data,
+  (forall x, length (blake2b512 x) = 64%nat) -> (forall x, bytes_ok (blake2b512 x)) ->
+  Codecs.ss58_decode blake2b512 s = Ok (f, data) ->
+  Codecs.ss58_encode blake2b512 data (Z.of_N f) = Ok s /\ bytes_ok data /\ length data = ss58_data_len /\
+  f <= ss58_format_max /\ ~ In f ss58_reserved.
+Proof. intros blake s f data H1 H2. apply SS58Ok.ss58_encode_decode; assumption. Qed.
+Print Assumptions ss58_encode_decode.
+
+Theorem ss58_accepts_iff : forall (blake2b512 : list N -> list N) s f data,
+  (forall x, length (blake2b512 x) = 64%nat) -> (forall x, bytes_ok (blake2b512 x)) ->
+  (Codecs.ss58_decode blake2b512 s = Ok (f, data) <->
+   (Codecs.ss58_encode blake2b512 data (Z.of_N f) = Ok s /\ bytes_ok data)).
+Proof. intros blake s f data H1 H2. apply SS58Ok.ss58_accepts_iff; assumption. Qed.
+Print Assumptions ss58_accepts_iff.
+
+(* the decoder fails only with ValueError or SS58ChecksumError (no IndexError: former defect F3) *)
+Theorem ss58_decode_err : forall (blake2b512 : list N -> list N) s e,
+  Codecs.ss58_decode blake2b512 s = Err e -> e = ValueError \/ e = LibError SS58ChecksumError.
+Proof. exact SS58Ok.ss58_decode_err. Qed.
+Print Assumptions ss58_decode_err.
+
+Theorem ss58_f3_rejected :
+  Codecs.ss58_parse_header [] = Err ValueError /\ Codecs.ss58_parse_header [64] = Err ValueError /\
+  Codecs.ss58_parse_header [128; 0] = Err ValueError /\ Codecs.ss58_parse_header [65; 64] = Err ValueError.
+Proof. exact SS58Ok.ss58_f3_rejected. Qed.
+Print Assumptions ss58_f3_rejected.
+
+(* ------------------------------------------------------------------ SCALE encoders *)
+(* The library has encoders only.  [Scale.compact_decode], [Scale.bytes_decode], [Scale.uint_decode] are model
+   decoders written from the SCALE specification; decode (encode v ++ rest) = (v, rest) says that the encoding
+   is injective and self-delimiting (what every concatenated SCALE structure relies on). *)
+
+Theorem scale_thresholds : scale_single_max = 2 ^ 6 - 1 /\ scale_two_max = 2 ^ 14 - 1 /\
+  scale_four_max = 2 ^ 30 - 1 /\ scale_big_max = 2 ^ 536 - 1 /\ scale_uint_byte_lens = [1; 2; 4; 8; 16; 32].
+Proof.
+  exact (conj ScaleOk.scale_single_def (conj ScaleOk.scale_two_def (conj ScaleOk.scale_four_def
+         (conj ScaleOk.scale_big_def ScaleOk.scale_uint_lens)))).
+Qed.
+Print Assumptions scale_thresholds.
+
+(* compact integers across the 2^6 / 2^14 / 2^30 / 2^536 thresholds *)
+Theorem scale_compact_dec_enc : forall v rest, v <= scale_big_max ->
+  exists b, Codecs.scale_compact_encode (Z.of_N v) = Ok b /\
+            Scale.compact_decode (b ++ rest) = Ok (v, rest) /\ bytes_ok b.
+Proof. exact ScaleOk.scale_compact_dec_enc. Qed.
+Print Assumptions scale_compact_dec_enc.
+
+Theorem scale_compact_inj : forall v1 v2 b1 b2 r1 r2, v1 <= scale_big_max -> v2 <= scale_big_max ->
+  Codecs.scale_compact_encode (Z.of_N v1) = Ok b1 -> Codecs.scale_compact_encode (Z.of_N v2) = Ok b2 ->
+  b1 ++ r1 = b2 ++ r2 -> v1 = v2 /\ r1 = r2.
+Proof. exact ScaleOk.scale_compact_inj. Qed.
+Print Assumptions scale_compact_inj.
+
+Theorem scale_compact_range : forall v,
+  ((Z.of_N scale_big_max < v)%Z -> Codecs.scale_compact_encode v = Err ValueError) /\
+  ((v < 0)%Z -> Codecs.scale_compact_encode v = Err OverflowError).
+Proof. exact ScaleOk.scale_compact_range. Qed.
+Print Assumptions scale_compact_range.
+
+Theorem scale_bytes_dec_enc : forall b rest, bytes_ok b -> N.of_nat (length b) <= scale_big_max ->
+  exists s, Codecs.scale_bytes_encode b = Ok s /\ Scale.bytes_decode (s ++ rest) = Ok (b, rest).
+Proof. exact ScaleOk.scale_bytes_dec_enc. Qed.
+Print Assumptions scale_bytes_dec_enc.
+
+(* u8 .. u256: little-endian on exactly w bytes, injective; everything else is a ValueError *)
+Theorem scale_uint_dec_enc : forall kind w v rest, nth_error scale_uint_byte_lens kind = Some w -> v < 256 ^ w ->
+  exists b, Codecs.scale_uint_encode kind (Z.of_N v) = Ok b /\
+            Scale.uint_decode (N.to_nat w) (b ++ rest) = Ok (v, rest) /\ length b = N.to_nat w.
+Proof. exact ScaleOk.scale_uint_dec_enc. Qed.
+Print Assumptions scale_uint_dec_enc.
+
+Theorem scale_uint_inj : forall kind w v1 v2 b, nth_error scale_uint_byte_lens kind = Some w ->
+  v1 < 256 ^ w -> v2 < 256 ^ w ->
+  Codecs.scale_uint_encode kind (Z.of_N v1) = Ok b -> Codecs.scale_uint_encode kind (Z.of_N v2) = Ok b -> v1 = v2.
+Proof. exact ScaleOk.scale_uint_inj. Qed.
+Print Assumptions scale_uint_inj.
+
+Theorem scale_uint_range : forall kind w v, nth_error scale_uint_byte_lens kind = Some w ->
+  (v < 0 \/ Z.of_N (256 ^ w) <= v)%Z -> Codecs.scale_uint_encode kind v = Err ValueError.
+Proof. exact ScaleOk.scale_uint_range. Qed.
+Print Assumptions scale_uint_range.
+
+(* ------------------------------------------------------------------ CBOR indefinite-length array *)
+(* cbor2's integer coding is modelled from RFC 8949 (major type 0, preferred serialisation), tied to cbor2 by
+   the correspondence run only.  The decode loop is fuel-bounded by the input length and provably never runs
+   out (cbor_decode_err: the only error class is ValueError). *)
+
+Theorem cbor_ids : cbor_uint8 = 24 /\ cbor_uint16 = 25 /\ cbor_uint32 = 26 /\ cbor_uint64 = 27 /\
+  cbor_indef_len_array_start = 159 /\ cbor_indef_len_array_end = 255.
+Proof. exact CborOk.cbor_ids. Qed.
+Print Assumptions cbor_ids.
+
+Theorem cbor_array_roundtrip : forall l, Forall (fun n => n < 2 ^ 64) l ->
+  Codecs.cbor_decode (Codecs.cbor_encode (map Z.of_N l)) = Ok (map (fun n => Cbor.CInt (Z.of_N n)) l).
+Proof. exact CborOk.cbor_array_roundtrip. Qed.
+Print Assumptions cbor_array_roundtrip.
+
+Example cbor_array_roundtrip_ex : Forall (fun n => n < 2 ^ 64) [0; 23; 24; 2 ^ 32; 2 ^ 64 - 1].
+Proof. repeat constructor. Qed.
+Print Assumptions cbor_array_roundtrip_ex.
+
+(* The model's length guard is the one the property demands (len < 2); the code's "< 3" rejects the encoder's
+   output for the empty array -- finding C11-CBOR-EMPTY, visible as a model/implementation divergence on 9fff. *)
+Theorem cbor_array_roundtrip_empty : Codecs.cbor_decode (Codecs.cbor_encode []) = Ok [].
+Proof. exact CborOk.cbor_array_roundtrip_empty. Qed.
+Print Assumptions cbor_array_roundtrip_empty.
+
+Theorem cbor_encode_standard : forall l, Forall (fun n => n < 2 ^ 64) l ->
+  Codecs.cbor_encode (map Z.of_N l) = [159] ++ concat (map (Cbor.cbor_head 0) l) ++ [255].
+Proof. exact CborOk.cbor_encode_standard. Qed.
+Print Assumptions cbor_encode_standard.
+
+Theorem cbor_decode_err : forall enc e, Codecs.cbor_decode enc = Err e -> e = ValueError.
+Proof. exact CborOk.cbor_decode_err. Qed.
+Print Assumptions cbor_decode_err.
+
+(* decode-then-encode does NOT hold (material for C10): non-minimal heads and trailing bytes are accepted *)
+Theorem cbor_canonical_refuted :
+  Codecs.cbor_decode [159; 24; 5; 255] = Ok [Cbor.CInt 5] /\ Codecs.cbor_encode [5%Z] <> [159; 24; 5; 255] /\
+  Codecs.cbor_decode [159; 255; 0; 255] = Ok [].
+Proof. exact CborOk.cbor_canonical_refuted. Qed.
+Print Assumptions cbor_canonical_refuted.
